@@ -200,12 +200,9 @@ func (vs *VersionedStore) Close() lib.ErrorI {
 			return ErrCloseDB(err)
 		}
 	}
-	// for read-only versioned store, batch may be nil
-	if vs.batch != nil {
-		if err := vs.batch.Close(); err != nil {
-			return ErrCloseDB(err)
-		}
-	}
+	// NOTE: the batch is not closed here, it belongs to its creator (the Store closes its writer in Discard()): one batch
+	// is shared by several versioned stores and pebble recycles closed batches through a process-wide pool, so closing it
+	// once per holder could release a batch that another goroutine (a store copy, e.g. the mempool's) had just re-acquired
 	vs.closed = true
 	return nil
 }
